@@ -49,7 +49,7 @@ def make_profile(prop, rng, tier):
         lo, hi = 4, 8
     elif p['plate_size'] == 'medium':
         hi = min(hi, 18)
-    p['n_events'] = rng.randint(lo, hi)
+    p['n_events'] = rng.randint(min(lo, hi), hi)
     return p
 
 
